@@ -528,7 +528,7 @@ func TestVerifC08(t *testing.T) {
 				kept = append(kept, h)
 			}
 		}
-		maxPlans := verifkit.Pick(260, 900)
+		maxPlans := verifkit.Pick(260, 500)
 		if sc.window > 0 {
 			// the backlog scenarios are long (many re-injections): a thinner sample of pair plans
 			maxPlans = verifkit.Pick(50, 200)
@@ -559,7 +559,7 @@ func TestVerifC08(t *testing.T) {
 				rep.Distinct(sc.name + "/" + h.String())
 			}
 		}
-		for s := 0; s < verifkit.Pick(5, 50) && !(burst && s >= verifkit.Pick(1, 6)); s++ {
+		for s := 0; s < verifkit.Pick(5, 25) && !(burst && s >= verifkit.Pick(1, 4)); s++ {
 			s := s
 			runOnce(fmt.Sprintf("jitter(%d)", s), func() { verifsched.SetJitter(uint64(verifkit.Seed())*100+uint64(s), 300, 500*time.Microsecond) })
 			rep.Distinct(fmt.Sprintf("%s/jitter-%d", sc.name, s))
